@@ -1,6 +1,6 @@
 """C10: a source that fails to build has no effect on anything submitted afterwards."""
 from .xsbase import *
-import os
+import os, re
 
 GOOD = ['1 2', '"s" 5', ': sq dup * ; 3 sq', '7 var keep', '[ 1 2 ] { 3 "k" }', '#( 9 const NINE #) NINE', '', '10 20 30 rot',
         ': twice dup + ; 1 var cnt', '|ff 00| open-bitstr u8']
@@ -44,7 +44,45 @@ class C10(XsProp):
                     ['clone', 'clone', 'use 2', 'compile %s' % hexsrc(bad), 'use 0',
                      '%s %s' % (style, hexsrc(bad)), 'out', pr, 'dump', 'use 1', pr, 'dump']
             cs.append(' | '.join(steps))
+        # recorded findings D30-D32 (witnesses; each must keep failing the way it is recorded)
+        for goods, bad, probes in self.WITNESS:
+            pr = ' | '.join('eval %s | stack | out' % hexsrc(p) for p in probes)
+            steps = ['xs limits 4000 - -'] + ['eval %s' % hexsrc(g) for g in goods] + \
+                    ['clone', 'clone', 'use 2', 'compile %s' % hexsrc(bad), 'use 0', 'eval %s' % hexsrc(bad), 'out', pr, 'dump', 'use 1', pr, 'dump']
+            cs.append(' | '.join(steps))
         return cs
+
+    WITNESS = [([': foo immediate drop ;', '7 8'], 'foo bar', ['depth']),
+               (['#( 1 const X #)'], '#( 5 const X #) junk', ['X']),
+               (['late foo : bar foo ;'], ': foo 2 ; #( bar #) junk', ['7 drop : foo 1 ; bar'])]
+    D30 = ('a rejected source that invoked a user-defined immediate word: the word ran at build time on the caller\'s data stack / variables '
+           'and what it did is not undone (witness: `: foo immediate drop ;` `7 8`, then the rejected `foo bar` leaves only 7)')
+    D31 = ('a rejected source whose meta block redefined an existing constant: `const` overwrites the entry in place, below the mark the '
+           'unwinding truncates to (witness: `#( 1 const X #)`, then the rejected `#( 5 const X #) junk` leaves X = 5)')
+    D32 = ('a rejected source whose meta block ran a late-bound word defined earlier: the stub is resolved to a definition of the rejected '
+           'source and keeps pointing into the removed code (witness: `late foo : bar foo ;`, rejected `: foo 2 ; #( bar #) junk`, then '
+           '`: foo 1 ; bar` fails)')
+
+    def known(self, text, impl, spec):
+        m = re.search(r'history: (.*)', text)
+        if not m:
+            return None
+        srcs = m.group(1).split(' ;; ')
+        k = next((i for i in range(len(srcs) - 1) if srcs[i] == srcs[i + 1]), None)
+        if k is None:
+            return None
+        goods, bad = ' \n '.join(srcs[:k]), srcs[k]
+        btoks = bad.split()
+        for w in re.findall(r':\s+(\S+)\s+immediate\b', goods):
+            if w in btoks:
+                return self.D30
+        for w in re.findall(r'\bconst\s+(\S+)', goods):
+            if re.search(r'\bconst\s+%s(\s|$)' % re.escape(w), bad):
+                return self.D31
+        for w in re.findall(r'\blate\s+(\S+)', goods):
+            if re.search(r':\s+%s\s' % re.escape(w), bad) and '#(' in bad:
+                return self.D32
+        return None
 
     def group_check(self, cases, impl):
         fails, samples = [], []
